@@ -50,6 +50,8 @@ def mutants(prog):
         ("nifti writer: squeeze every singleton axis", N, "write_nifti_image", "dataobj = np.transpose(data.numpy(), axes=tuple(reversed(range(data.ndim))))", "dataobj = np.squeeze(np.transpose(data.numpy(), axes=tuple(reversed(range(data.ndim))))) if data.shape[0] == 1 else np.transpose(data.numpy(), axes=tuple(reversed(range(data.ndim))))", "T18.singleton"),
         ("to_uri bypasses the overridden write", DI, "Image.to_uri", "self.write(uri, compress=compress)", "write_image(self.tensor(), self.grid(), uri, compress=compress)", "T18.flow-api"),
         ("mha writer: channel count of channel-less data", M, "write_meta_image", "data.shape[0] if data.ndim == grid.ndim + 1 else 1", "data.shape[0]", "T18.channel-less"),
+        ("sitk: uint16 widened to int16", T, "tensor_from_image", "image = sitk.Cast(image, sitk.sitkInt32)", "image = sitk.Cast(image, sitk.sitkInt16)", "T18.sitk-types"),
+        ("sitk: uint32 not widened", T, "tensor_from_image", "elif image.GetPixelID() == sitk.sitkUInt32:", "elif image.GetPixelID() == sitk.sitkUInt64:", "T18.sitk-types"),
     ]
     for name, mod, fn, old, new, expect in specs:
         if expect == "SKIP":
